@@ -369,7 +369,13 @@ func (runInfo *runInfoStruct) invokeMemberExpr(expr *ast.MemberExpr) {
 	case reflect.Struct:
 		field, found := runInfo.rv.Type().FieldByName(expr.Name)
 		if found {
-			fieldValue := runInfo.rv.FieldByIndex(field.Index)
+			fieldValue, reachable := fieldByIndex(runInfo.rv, field.Index)
+			if !reachable {
+				// the field is promoted from an embedded pointer that is nil
+				runInfo.err = newStringError(expr, "member '"+expr.Name+"' is a field of an embedded pointer that is nil")
+				runInfo.rv = nilValue
+				return
+			}
 			if !fieldValue.CanInterface() {
 				// unexported field: reflect refuses to hand out its value
 				runInfo.err = newStringError(expr, "no member named '"+expr.Name+"' for struct")
